@@ -32,6 +32,8 @@ func (o opSpec) String() string {
 	switch o.kind {
 	case "add":
 		return fmt.Sprintf("Add(%s,%s)", p, o.val)
+	case "adds":
+		return fmt.Sprintf("Add(%s,[]string{%s})", p, o.val)
 	case "del":
 		return fmt.Sprintf("Del(%s)", p)
 	case "delcond":
@@ -111,7 +113,7 @@ type cfgData struct {
 func readOnly(p []opSpec) bool {
 	for _, o := range p {
 		switch o.kind {
-		case "add", "del", "hupd", "delcond", "walkdel":
+		case "add", "adds", "del", "hupd", "delcond", "walkdel":
 			return false
 		}
 	}
@@ -267,6 +269,18 @@ func (harness) Configs(tier string) []xplore.Config {
 		for _, rd := range []opSpec{{"walk", nil, ""}, walkSorted, {"query", q, ""}, {"query", []string{"*"}, ""}} {
 			add(init, [][]opSpec{{rd}, {{"add", append(append([]string{}, pre...), "w"), "v1"}}}, 2)
 			add(init, [][]opSpec{{rd}, {{"del", append(append([]string{}, pre...), "y"), ""}}}, 2)
+		}
+	}
+	// values of a type that cannot be compared with == (a slice, as leaf-lists
+	// and notifications with repeated fields are): stored, overwritten by the
+	// same kind and by a string, read back, deleted
+	{
+		s1, s2 := opSpec{"adds", ab, "v1"}, opSpec{"adds", ab, "v2"}
+		for _, in := range [][]string{{}, {"a/b"}} {
+			add(in, [][]opSpec{{s1, s2}, {{"get", ab, ""}}}, 3)
+			add(in, [][]opSpec{{s1, s1}, {{"del", []string{"a"}, ""}}}, 3)
+			add(in, [][]opSpec{{s1, {"add", ab, "v1"}}, {s2, {"query", []string{"a", "*"}, ""}}}, 3)
+			add(in, [][]opSpec{{s1}, {s1}, {s2}}, 3)
 		}
 	}
 	// conditional deletes (what the cache's timestamped delete is built on):
@@ -470,6 +484,9 @@ func lops(rs []rec) []hutil.LOp {
 	var out []hutil.LOp
 	for i := range rs {
 		r := rs[i]
+		if r.spec.kind == "adds" {
+			r.spec = opSpec{"add", r.spec.path, fmt.Sprint([]string{r.spec.val})}
+		}
 		switch r.spec.kind {
 		case "add":
 			out = append(out, hutil.LOp{Inv: r.inv, Ret: r.ret, Thread: r.thread, Name: fmt.Sprintf("%s=err:%v", r.spec, r.err), Step: func(s hutil.State) []hutil.State {
@@ -682,6 +699,8 @@ func (harness) Run(cfg xplore.Config, ch vrt.Chooser, trace bool) (xplore.Outcom
 					switch o.kind {
 					case "add":
 						r.err = t.Add(o.path, o.val) != nil
+					case "adds":
+						r.err = t.Add(o.path, []string{o.val}) != nil
 					case "del":
 						for _, p := range t.Delete(o.path) {
 							r.deleted = append(r.deleted, strings.Join(p, "/"))
